@@ -72,7 +72,8 @@ shape = [4, 4], type = oper, isherm = False
     if not isinstance(offsets, list):
         offsets = [offsets]
     if len(offsets) == 1 and offsets[0] != 0:
-        isherm = False
+        # A single off-diagonal is Hermitian only when it is entirely zero.
+        isherm = np.all(np.abs(diagonals) <= settings.core["atol"])
         isunitary = False
     elif offsets == [0]:
         isherm = np.all(np.abs(np.imag(diagonals)) <= settings.core["atol"])
